@@ -351,9 +351,6 @@ def signature(case, verdict, failed):
     op = case["op"]
     err = (case.get("impl") or {}).get("err")
     fl = "/".join(sorted(failed))
-    if op == "project" and failed == ["spec"]:
-        if err == "rejected" and "model-rejected" in t and "sp-valid" in t:
-            return "project:valid-start_pos-rejected-by-source-space-assert"
     return f"{op}:{fl}:{err or 'no-exception'}"
 
 
